@@ -109,6 +109,13 @@ CLAIMED = {
             "KNOWN-FINDING and excluded by an added assumption.",
             "SQLite replaced by a relational model of the statements the store issues (agreement with real sqlite3 checked on 27 scenarios per "
             "run; replays use real SQLite); LRO ids.", "DESIGN.md 4/C08"),
+    "C09": ("CrossHair symbolic execution of ConnectedRemotePeer.handle_block_received on a node shell with the real BlockStore on the relational sqlite stand-in",
+            "Solver verdict per kind of delivered block (13 kinds: valid on head / on an older block, duplicate, orphan, three by-itself defects, "
+            "four in-state defects, apply error, a block whose validation raises a non-validation error), each also conflicting with the pending "
+            "transaction, with symbolic clocks, timestamps, values and reward: accepted iff valid; accepted => in state, flushed, relayed once iff "
+            "new head, repeat is a no-op; rejected => served state is the identical object, no published state ever contained the block, store rows, "
+            "write buffer and pool untouched; a following valid block is accepted and stored.",
+            "Node shell, relational sqlite stand-in (validated in C08), stubs as C01 with preset LRO ids; bulk download outside the property.", "DESIGN.md 4/C09"),
 }
 
 NOT_YET = "not claimed yet in this revision of /verif: the check is still being built (see DESIGN.md section 4 for the planned decision procedure)"
